@@ -12,6 +12,7 @@ S, F are small integers; N, K, V, T are byte strings (`-` = nil, `h<hex>` otherw
 -/
 import Gkv.Model.Store
 import Gkv.Model.Blocks
+import Gkv.Model.Iter
 open Std
 
 namespace Gkv
@@ -64,7 +65,21 @@ def fnv (b : Bytes) : UInt64 :=
 structure WFile where
   bytes : Bytes
   hist : List (Nat × Bytes ⊕ Nat)   -- write (off, data) | truncate size, oldest first
+  vals : List (Nat × Nat) := []      -- (offset, length) of every item VALUE ever flushed (C19)
 deriving Inhabited
+
+/-- value ranges of the persisted items of a tree -/
+def Tree.valRanges : Tree → List (Nat × Nat)
+  | .nil => []
+  | .node l i _ _ r _ q =>
+    l.valRanges ++ (match q with
+      | some il => [(il.off + itemHdrLen + i.key.length, i.val.length)]
+      | none => []) ++ r.valRanges
+
+def collsValRanges (cs : List Coll) : List (Nat × Nat) := cs.flatMap (fun c => c.root.valRanges)
+
+def addVals (old new : List (Nat × Nat)) : List (Nat × Nat) :=
+  new.foldl (fun acc x => if acc.contains x then acc else acc ++ [x]) old
 
 structure World where
   files : List (Nat × WFile)
@@ -82,7 +97,7 @@ def assocSet {α : Type} (k : Nat) (v : α) : List (Nat × α) → List (Nat × 
 
 def assocDel {α : Type} (k : Nat) (l : List (Nat × α)) : List (Nat × α) := l.filter (·.1 ≠ k)
 
-def World.file (w : World) (f : Nat) : WFile := (assocGet f w.files).getD ⟨[], []⟩
+def World.file (w : World) (f : Nat) : WFile := (assocGet f w.files).getD { bytes := [], hist := [] }
 
 /-- run a file-writing function of Model B against a world file, recording the writes with data -/
 def recordWrites (wf : WFile) (before : Bytes) (after : FileSt) : WFile :=
@@ -92,7 +107,7 @@ def recordWrites (wf : WFile) (before : Bytes) (after : FileSt) : WFile :=
     | .write off len => (Sum.inl (off, (after.bytes.drop off).take len) : Nat × Bytes ⊕ Nat)
     | .trunc n => Sum.inr n)
   let _ := before
-  { bytes := after.bytes, hist := wf.hist ++ evs }
+  { bytes := after.bytes, hist := wf.hist ++ evs, vals := wf.vals }
 
 /-! ### observations -/
 
@@ -179,7 +194,88 @@ def stepTokens (w : World) : List String → World × String
        | .corrupt => (w, "corrupt"))
     | _, _ => (w, "bad-op")
   | ["cfg", _] => (w, "ok")
+  | ["rmfile", f] => match f.toNat? with
+    | some f => ({ w with files := assocDel f w.files }, "ok")
+    | none => (w, "bad-op")
   | ["heapcheck"] => (w, "ok")
+  | ["appendcheck", _] => (w, "ok")
+  | ["rmark", _] => (w, "ok")
+  | ["kreads", _] => (w, "ok")      -- replaced by `readsok` in the second pass (C19)
+  | ["readsok", f, reads] => match f.toNat? with
+    | some f =>
+      -- no read of a key-only operation may touch a byte of any item value
+      let vals := (w.file f).vals
+      let rs := (reads.splitOn ",").filterMap (fun r =>
+        match (r.drop 1).toString.splitOn "+" with
+        | [a, b] => match a.toNat?, b.toNat? with
+          | some a, some b => if r.startsWith "r" then some (a, b) else none
+          | _, _ => none
+        | _ => none)
+      let bad := rs.filter (fun r => vals.any (fun v => v.2 > 0 && r.2 > 0 && r.1 < v.1 + v.2 && v.1 < r.1 + r.2))
+      (w, if bad.isEmpty then "ok" else "bad:value-bytes-read " ++ toString bad)
+    | none => (w, "bad-op")
+  | ["readsok", _] => (w, "ok")
+  | ["openreads", f] => match f.toNat? with
+    | some f =>
+      -- what opening this file must read: Stat, the 24-byte tail, the rest of the last root record
+      let b := (w.file f).bytes
+      if b.length = 0 then (w, "s")
+      else match scanRoots b false b.length with
+        | .found e _ =>
+          if e = b.length then
+            let off := unbe ((b.drop (e - 24)).take 8)
+            (w, "s,r" ++ toString (e - 24) ++ "+24,r" ++ toString off ++ "+" ++ toString (e - off - 24))
+          else (w, "scan")
+        | _ => (w, "scan")
+    | none => (w, "bad-op")
+  | ["decodehex", h] =>
+    (match parseHexAux h.toList [] with
+     | some b => (w, showOpen (openStore 0 b cmpOfName))
+     | none => if h == "-" then (w, showOpen (openStore 0 [] cmpOfName)) else (w, "bad-op"))
+  | ["crashopen", f, k, c, f2, s] => match f.toNat?, k.toNat?, c.toNat?, f2.toNat?, s.toNat? with
+    | some f, some k, some c, some f2, some s =>
+      let img := crashImage (w.file f).hist k c
+      let wf : WFile := { bytes := img, hist := if img.isEmpty then [] else [.inl (0, img)] }
+      let w := { w with files := assocSet f2 wf w.files }
+      (match openStore f2 img cmpOfName with
+       | .ok st => ({ w with stores := assocSet s st w.stores }, "ok")
+       | .noRoots => (w, "noroots")
+       | .corrupt => (w, "corrupt"))
+    | _, _, _, _, _ => (w, "bad-op")
+  | ["setroot", s, n, k, p, mode] => match s.toNat?, parseBytes n, parseBytes k, p.toNat?, mode.toNat? with
+    | some s, some (some n), some (some k), some p, some mode =>
+      withColl w s n fun st c =>
+        if st.readOnly then (w, "err-ro") else
+        let b := match st.file with
+          | some f => (w.file f).bytes
+          | none => []
+        let val : Bytes := match scanRoots b false b.length with
+          | .found e _ =>
+            let off := unbe ((b.drop (e - 24)).take 8)
+            let r := (b.drop off).take (e - off)
+            let flip (i : Nat) (m : UInt8) : Bytes := (r.take i) ++ ((r.drop i).take 1).map (· ^^^ m) ++ r.drop (i + 1)
+            (match mode % 4 with
+             | 0 => flip (r.length - 1) 0xff
+             | 1 => flip 0 0xff
+             | 2 => flip 15 0x01
+             | _ => flip (r.length - 13) 0x01)
+          | _ => "no-root-yet".toUTF8.toList
+        (putColl w s st { c with root := Tree.setItem c.cmp.fn c.root ⟨k, val, p⟩ }, "ok")
+    | _, _, _, _, _ => (w, "bad-op")
+  | ["iter", s, n, dir, t, wv, prog] => match s.toNat?, parseBytes n, parseBytes t with
+    | some s, some (some n), some t =>
+      withColl w s n fun _ c =>
+        let all := (if dir == "asc" then Tree.visitAsc c.cmp.fn c.root (t.getD []) 0
+                    else Tree.visitDesc c.cmp.fn c.root (t.getD []) 0).map (·.1)
+        let cmds : List Iter.Cmd := (prog.toList ++ ['C']).filterMap (fun ch =>
+          if ch == 'N' then some .next else if ch == 'C' then some .close else none)
+        let outs := Iter.outputs (List.range all.length) cmds
+        let shown := outs.map (fun o => match o with
+          | .nextTrue i => "T:" ++ showItem (wv == "1") (all.getD i default)
+          | .nextFalse => "F"
+          | .closed => "C")
+        (w, ",".intercalate shown)
+    | _, _, _ => (w, "bad-op")
   | ["refcheck"] => (w, "ok")
   | ["refbalance"] => (w, "ok")
   | ["churn", _] => (w, "ok")
@@ -296,7 +392,9 @@ def stepTokens (w : World) : List String → World × String
           let fs0 : FileSt := { bytes := wf.bytes, size := st.size, log := [],
                                 failAt := plan.map (·.1), torn := (plan.map (·.2)).getD 0 }
           let (cs, fs) := flushStore st.colls fs0
-          ({ w with files := assocSet f (recordWrites wf wf.bytes fs) w.files,
+          let wf1 := recordWrites wf wf.bytes fs
+          let wf2 := { wf1 with vals := addVals wf1.vals (collsValRanges cs) }
+          ({ w with files := assocSet f wf2 w.files,
                     stores := assocSet s { st with colls := cs, size := fs.size } w.stores },
            if fs.failed then "err-io" else "ok"))
     | none => (w, "bad-op")
@@ -317,7 +415,7 @@ def stepTokens (w : World) : List String → World × String
           | none => (w, "corrupt")
           | some (st', bytes') =>
             let wf' : WFile :=
-              if st.readOnly then wf else ⟨bytes', wf.hist ++ [.inr st'.size]⟩
+              if st.readOnly then wf else { wf with bytes := bytes', hist := wf.hist ++ [.inr st'.size] }
             ({ w with files := assocSet f wf' w.files, stores := assocSet s st' w.stores }, "ok"))
     | none => (w, "bad-op")
   | ["copy", s, s2, f2, fe] => match s.toNat?, s2.toNat?, f2.toNat?, fe.toInt? with
@@ -325,7 +423,8 @@ def stepTokens (w : World) : List String → World × String
       | none => (w, "nostore")
       | some st =>
         let (cs, fs) := copyTo st.colls fe
-        let wf := recordWrites ⟨[], []⟩ [] fs
+        let wf0 := recordWrites { bytes := [], hist := [] } [] fs
+        let wf := { wf0 with vals := collsValRanges cs }
         ({ w with files := assocSet f2 wf w.files,
                   stores := assocSet s2 ⟨some f2, fs.size, cs, false⟩ w.stores }, "ok"))
     | _, _, _, _ => (w, "bad-op")
